@@ -138,6 +138,24 @@ pub fn variants(base: &Base) -> Vec<Variant> {
         let mut b = fresh();
         b.transactions.remove(i);
         push(format!("remove-tx{}", i), "remove-tx", b);
+        // the same with the header's merkle root rewritten to fit (nobody re-signs): the root is
+        // what the creator's signature and the block hash commit to
+        let mut b = fresh();
+        let _ = b.generate();
+        b.transactions.remove(i);
+        b.created_hashmap_of_slips_spent_this_block = false;
+        b.slips_spent_this_block.clear();
+        b.merkle_root = [0; 32];
+        b.merkle_root = b.generate_merkle_root(false, false);
+        push(format!("remove-tx{}+root-rewritten", i), "remove-tx+root-rewritten", b);
+        let mut b = fresh();
+        let _ = b.generate();
+        let mut ft = base.foreign.clone();
+        ft.generate(&b.creator, 0, 0);
+        b.transactions.push(ft);
+        b.merkle_root = [0; 32];
+        b.merkle_root = b.generate_merkle_root(false, false);
+        push(format!("append-foreign-after-tx{}+root-rewritten", i), "append-tx+root-rewritten", b);
         let mut b = fresh();
         let t = b.transactions[i].clone();
         b.transactions.insert(i, t);
